@@ -108,7 +108,7 @@ Proof.
   intros E. injection E as <-. apply bag_inv_snoc; [exact Hk|]. unfold ctx_inv, mods_inv. rewrite Hc. split; [constructor|intros k m []].
 Qed.
 
-Lemma convert_context_nomods y ib f c m : convert_context y ib f = Ok (c, m) -> c_modules c = [].
+Lemma convert_context_nomods y ib f root c m : convert_context y ib f root = Ok (c, m) -> c_modules c = [].
 Proof.
   unfold convert_context. intros H.
   repeat match type of H with rbind ?X _ = _ => destruct X; cbn [rbind] in H; try discriminate end.
@@ -121,20 +121,20 @@ Proof.
   unfold add_modules. intros Hk HF.
   apply (fold_rbind_inv bag_inv
            (fun b0 y => fold_left (fun acc c => rbind acc (fun b1 =>
-                          rbind (convert_module bd y c is_binary (ld_file d) defaults) (add_module b1)))
+                          rbind (convert_module bd y c is_binary (ld_file d) (ld_root d) defaults) (add_module b1)))
                           (contexts_of (ym_context y)) (Ok b0))) with (l := mods) (acc := Ok b); [|intros a E; injection E as <-; exact Hk|exact HF].
   intros a y a' Ha HF2.
   apply (fold_rbind_inv bag_inv
-           (fun b1 c => rbind (convert_module bd y c is_binary (ld_file d) defaults) (add_module b1)))
+           (fun b1 c => rbind (convert_module bd y c is_binary (ld_file d) (ld_root d) defaults) (add_module b1)))
     with (l := contexts_of (ym_context y)) (acc := Ok a); [|intros a0 E; injection E as <-; exact Ha|exact HF2].
-  intros a0 c a1 Ha0 E. destruct (convert_module bd y c is_binary (ld_file d) defaults) as [m| | |]; cbn [rbind] in E; try discriminate.
+  intros a0 c a1 Ha0 E. destruct (convert_module bd y c is_binary (ld_file d) (ld_root d) defaults) as [m| | |]; cbn [rbind] in E; try discriminate.
   exact (add_module_inv _ _ _ Ha0 E).
 Qed.
 
 Theorem load_stored_inv t pf bd b : load t pf bd = Ok b -> bag_inv b.
 Proof.
   unfold load. intros HL.
-  destruct (load_files _ t [(pf, None)] 0 []) as [[docs fs]| | |]; cbn [rbind] in HL; try discriminate.
+  destruct (load_files _ t [(pf, (None, None))] 0 []) as [[docs fs]| | |]; cbn [rbind] in HL; try discriminate.
   match type of HL with rbind ?X _ = _ => destruct X as [[b0 cms]| | |] eqn:E1 end; cbn [rbind] in HL; try discriminate.
   assert (K0 : bag_inv b0).
   { refine (fold_rbind_inv (fun p : bag * list module => bag_inv (fst p)) _ _ docs (Ok ([], [])) (b0, cms) _ E1);
@@ -146,9 +146,9 @@ Proof.
     refine (fold_rbind_inv (fun p : bag * list module => bag_inv (fst p)) _ _ _ (Ok (bb, cmsb)) (bb', cmsb') _ Hlb);
       [|intros a E; injection E as <-; exact Hb].
     intros [bc cmsc] y [bc' cmsc'] Hc Hy. cbn [fst] in *.
-    destruct (convert_context y (snd lb || yc_is_builder y) (ld_file d)) as [[c m]| | |] eqn:Ecc; cbn [rbind] in Hy; try discriminate.
+    destruct (convert_context y (snd lb || yc_is_builder y) (ld_file d) (ld_root d)) as [[c m]| | |] eqn:Ecc; cbn [rbind] in Hy; try discriminate.
     destruct (add_context bc c) as [bn| | |] eqn:Ea; cbn [rbind] in Hy; try discriminate.
-    injection Hy as <- _. exact (add_context_inv _ _ _ Hc (convert_context_nomods _ _ _ _ _ Ecc) Ea). }
+    injection Hy as <- _. exact (add_context_inv _ _ _ Hc (convert_context_nomods _ _ _ _ _ _ Ecc) Ea). }
   destruct (finalize b0) as [b1| | |] eqn:Ef; cbn [rbind] in HL; try discriminate.
   pose proof (finalize_inv _ _ K0 Ef) as K1.
   match type of HL with rbind ?X _ = _ => destruct X as [b2| | |] eqn:E2 end; cbn [rbind] in HL; try discriminate.
